@@ -94,6 +94,9 @@ def menu(tmp):
     m['find_replace_b'] = lambda: DF.find_replace([dict(name='b', patterns=[dict(find='x', replace='X')])], resources=0)
     m['set_type_a_number'] = lambda: DF.set_type('a', type='number', resources=None)
     m['set_type_a_string'] = lambda: DF.set_type('a', type='string', resources=0, transform=lambda v: str(v))
+    # one pattern that matches DIFFERENTLY named fields in different resources (b in res_1, c in res_2), with a transform:
+    # each resource gets its own matches only (a row must never gain the keys matched in another resource)
+    m['set_type_bc_tf'] = lambda: DF.set_type('[bc]', type='string', resources=None, transform=lambda v: None if v is None else str(v))
     m['validate'] = lambda: DF.validate()
     m['update_schema'] = lambda: DF.update_schema(-1, verifmark=1)
     m['set_primary_key'] = lambda: DF.set_primary_key(['a'])
